@@ -30,6 +30,33 @@ Theorem C19_identity_keeps :
 Proof. exact identity_keeps. Qed.
 Print Assumptions C19_identity_keeps.
 
+(* 1b. the same rule seen from the listing: the kept file records an entry whose size, seconds AND nanoseconds equal the old
+       record's (only an old "unknown" (-1) nanosecond field accepts any value -- there is no exception on the side of the
+       file system, e.g. for a zero sub-second part), under the same path or, with usable inodes, the same inode. *)
+Theorem C19_identity_needs_stamp :
+  forall (usable : bool) (d0 : cdisk) (L : list lentry) (dk : cdisk),
+    disk_sound usable d0 L dk ->
+    forall f : cfile, In f (cd_files dk) -> (exists b : fblock, In b (cf_blocks f) /\ fb_state b = SBlk) ->
+    exists (e : lentry) (f0 : cfile),
+      In e L /\ le_kind e = LFile /\ ematch e f /\ In f0 (cd_files d0) /\ cf_blocks f = cf_blocks f0 /\
+      le_size e = cf_size f0 /\ le_mtime e = cf_mtime f0 /\ (le_nsec e = cf_nsec f0 \/ cf_nsec f0 = (-1)%Z) /\
+      (le_name e = cf_name f0 \/ (usable = true /\ le_inode e = cf_inode f0)).
+Proof. exact identity_needs_stamp. Qed.
+Print Assumptions C19_identity_needs_stamp.
+
+(* 1c. `usable` (has_past_inodes of scan.c): recorded inodes are used only when the file system keeps inode numbers, the disk
+       reports a UUID, and that UUID is the recorded one -- in particular never under an empty recorded UUID (0). *)
+Theorem C19_inodes_need_uuid :
+  forall (volatile : bool) (recorded current : N),
+    has_past_inodes volatile recorded current = true <-> volatile = false /\ current <> 0%N /\ recorded = current.
+Proof. exact has_past_inodes_spec. Qed.
+Print Assumptions C19_inodes_need_uuid.
+Theorem C19_inodes_empty_recorded_uuid : forall (volatile : bool) (current : N), has_past_inodes volatile 0%N current = false.
+Proof. exact has_past_inodes_empty_recorded. Qed.
+Print Assumptions C19_inodes_empty_recorded_uuid.
+Example C19_ex_uuid : has_past_inodes false 3 3 = true /\ has_past_inodes false 0 3 = false /\ has_past_inodes false 3 0 = false /\ has_past_inodes false 2 3 = false.
+Proof. vm_compute. repeat split; reflexivity. Qed.
+
 (* 2. copy_provisional. (a) the source picked by copy detection has the name (the PATH when the nanoseconds are zero or
       unknown), the size and the time-stamp of the new entry, at least one block and no block without an up-to-date hash;
       (b) the file created from it has only REP blocks carrying the source's hashes, the one created without a source only
